@@ -275,6 +275,13 @@ impl Store {
         out
     }
 
+    /// The terminal reported an error for this image (e.g. ENOENT): it does not hold the image
+    /// data any more, and with it all of its placements are gone.
+    pub fn evict(&mut self, id: u32) {
+        self.images.remove(&id);
+        let _ = self.drop_placements(id);
+    }
+
     fn drop_placements(&mut self, id: u32) -> (Vec<(u32, u32)>, usize) {
         let removed: Vec<(u32, u32)> = self
             .placements
